@@ -15,11 +15,11 @@
 (*   padding, BuildFromAscii: CIntText), the 'c' path (COrd), FormattedValueNode  *)
 (*   (ImplFValue: the conversion is dropped on the C path), Optimize.py           *)
 (*   _build_fstring (PctImpl) and JoinedStrNode's length / kind precomputation.   *)
-(* One state per case (site + spec/template); the step todo -> done computes the  *)
-(* row of reference outcomes over the operand grid; the row is published for      *)
-(* replay on compiled code (B1).  Cells where the implementation-shaped model     *)
-(* differs from the reference must lie in a documented hazard class (HzClass), and *)
-(* are published with their class.                                                *)
+(* One behaviour per case (site + spec/template/parts): todo -> ops -> done; the   *)
+(* last step computes the row of <<reference, implementation-shaped>> outcomes    *)
+(* over the operand grid, which is published for replay on compiled code (B1).    *)
+(* Cells where the implementation-shaped model differs from the reference must    *)
+(* lie in a documented hazard class (HzClass) and are published with their class. *)
 EXTENDS Integers, Sequences, FiniteSets, TLC, Json, IOUtils
 SX == INSTANCE SequencesExt
 
@@ -588,7 +588,6 @@ PCase(fl, w, p, t) == [site |-> "pct", s |-> <<>>, conv |-> 0, cls |-> "pct", pr
                        prectext |-> IF p >= 0 THEN <<cDot>> \o DigitChars(DigitsNat(p), FALSE) ELSE <<>>, ty |-> t, fn |-> "", parts |-> <<>>]
 PHash(fl, w, p, t) == (IF fl = <<>> THEN 0 ELSE fl[1] * 3 + (IF Len(fl) > 1 THEN fl[2] * 5 ELSE 0)) + (w + 1) * 7 + (p + 1) * 11 + t * 13
 PRewritable(fl, t) == (fl = <<cSp>> \/ \A i \in 1..Len(fl) : fl[i] \in {cMinus, c0}) /\ t \in {ch_a, ch_s, ch_r, ch_f, ch_d, ch_o, ch_x, ch_X}
-PctCases == {PCase(fl, w, p, t) : fl \in FlagSeqs, w \in PWidths, p \in PPrecs, t \in PTypes}
 PctSel == {c \in [fl : FlagSeqs, w : PWidths, p : PPrecs, t : PTypes] :
               (PHash(c.fl, c.w, c.p, c.t) + Seed) % (IF PRewritable(c.fl, c.t) THEN Params.pmod ELSE Params.pmodo) = 0}
 PctOps == {Op("cint", ti, v) : ti \in {5, 10}, v \in LightCands} \cup OtherOps \cup ObjOps
